@@ -138,6 +138,18 @@ def handleMem (j : Json) : Except String Json := do
     ("act", ofBools (activeList d x))])
   return Json.mkObj [("ok", true), ("wf", d.wfAll), ("unconstrained", d.unconstrained), ("res", Json.arr res.toArray)]
 
+/-- `fill`: ConfigSpace samples (absent = `null`) completed with the canonical inactive values -/
+def handleFill (j : Json) : Except String Json := do
+  let d ← jDecl (← field j "decl")
+  let samples ← jList (jList (fun v => match v with
+      | .null => pure none
+      | w => do return some (← jVal w))) (← field j "samples")
+  let res := samples.map (fun s =>
+    match fillInactive d.hps s with
+    | none => Json.null
+    | some x => ofConfig x)
+  return Json.mkObj [("ok", true), ("res", Json.arr res.toArray)]
+
 /-! ### `fin`: the model's inverse step with observed numerics -/
 
 def absR (q : Rat) : Rat := if q < 0 then -q else q
@@ -305,6 +317,21 @@ def applyPending (d : Decl) (freeAllowed : Bool) (r : Replay) (want : Option Con
 
 def indexAll (l : List Config) (xs : List Config) : Option (List Nat) := xs.mapM (findExact l)
 
+/-- positions of `xs` in `l`, preferring positions not used yet (the qLCB loop masks the
+positions it already chose; an exhausted, unfiltered candidate list contains repeated rows) -/
+def indexAllFresh (l : List Config) (xs : List Config) : Option (List Nat) :=
+  let li := l.zipIdx
+  let rec go : List Config → List Nat → Option (List Nat)
+    | [], _ => some []
+    | x :: rest, used =>
+      let pick := match li.find? (fun p => decide (p.1 = x) && !used.contains p.2) with
+        | some p => some p.2
+        | none => findExact l x
+      match pick with
+      | none => none
+      | some i => (go rest (used ++ [i])).map (i :: ·)
+  go xs []
+
 /-- build the environment of one `ask` from what was observed -/
 def guessAskEnv (freeAllowed : Bool) (c : Cbo Config) (o : RoundObs) (path : String) :
     Except String (AskEnv Config Config) :=
@@ -337,7 +364,7 @@ def guessAskEnv (freeAllowed : Bool) (c : Cbo Config) (o : RoundObs) (path : Str
     | none => .ok base
     | some x0 =>
       let f := filterDup s.filterOn (s.sampled ++ [x0]) d0
-      match indexAll f (o.X.drop 1) with
+      match indexAllFresh f (o.X.drop 1) with
       | none => .error "a qUCB proposal is not one of the duplicate-filtered candidates"
       | some idx => .ok { base with orders := idx.map (fun i => padOrder i d0.length) }
   else if path == "constant-liar" then
@@ -434,6 +461,7 @@ def handle (j : Json) : Except String Json := do
   match op with
   | "mem" => handleMem j
   | "fin" => handleFin j
+  | "fill" => handleFill j
   | "session" => handleSession j
   | _ => throw s!"unknown op {op}"
 
